@@ -666,6 +666,11 @@ type FrameDecl struct {
 	Pkg    string
 	Funcs  []string // Name or Type.Method
 	NoLeak bool
+	// Shallow: the function may assign to the variable its receiver points to
+	// (`*h = v`, `h.f = v`) - what a decoder is for - but not to anything
+	// that variable references (maps, slices, pointees), which may be shared
+	// with copies of the old value
+	Shallow bool
 }
 
 type SweepDecl struct {
@@ -702,7 +707,7 @@ func (cs *ContractSet) parseContractLines(file, pkgPath string, lines []string, 
 		line int
 	}
 	var stmts []stmt
-	top := map[string]bool{"func": true, "spec": true, "axiom": true, "sort": true, "opaque": true, "alias": true, "lemma": true, "sweep": true, "typeinv": true, "valinv": true, "frameclean": true, "noleak": true}
+	top := map[string]bool{"func": true, "spec": true, "axiom": true, "sort": true, "opaque": true, "alias": true, "lemma": true, "sweep": true, "typeinv": true, "valinv": true, "frameclean": true, "noleak": true, "frameshallow": true}
 	for i, ln := range lines {
 		t := strings.TrimSpace(ln)
 		if t == "" || strings.HasPrefix(t, "//") {
@@ -813,7 +818,7 @@ func (cs *ContractSet) parseContractLines(file, pkgPath string, lines []string, 
 			}
 			cs.Sweeps = append(cs.Sweeps, SweepDecl{Prop: fs[0], Pkg: pkgPath, Files: fs[1:]})
 			cur = nil
-		case "frameclean", "noleak":
+		case "frameclean", "noleak", "frameshallow":
 			fs := strings.Fields(strings.ReplaceAll(rest, ",", " "))
 			if len(fs) < 2 {
 				return fmt.Errorf("%s:%d: %s <PROP> <Func>...", file, s.line, word)
@@ -823,7 +828,7 @@ func (cs *ContractSet) parseContractLines(file, pkgPath string, lines []string, 
 				f = strings.TrimPrefix(strings.ReplaceAll(strings.ReplaceAll(f, "(", ""), ")", "."), "*")
 				fns = append(fns, f)
 			}
-			cs.FrameDecls = append(cs.FrameDecls, FrameDecl{Prop: fs[0], Pkg: pkgPath, Funcs: fns, NoLeak: word == "noleak"})
+			cs.FrameDecls = append(cs.FrameDecls, FrameDecl{Prop: fs[0], Pkg: pkgPath, Funcs: fns, NoLeak: word == "noleak", Shallow: word == "frameshallow"})
 			cur = nil
 		case "typeinv":
 			// typeinv <Type> <expr over self>: required and ensured by every method of Type
